@@ -38,7 +38,7 @@ WIDTH = {"u8": 8, "u16": 16, "u32": 32, "u64": 64, "usize": 64}
 
 def norm_type(t):
     t = re.sub(r"\s+", "", t or "")
-    t = re.sub(r"^&(mut)?", "", t)
+    t = re.sub(r"&('\w+)?(mut)?", "", t)
     return t
 
 
@@ -100,8 +100,11 @@ class Fn:
                 return self.ty(e[1], env)
             if e[2] in ("is_some", "is_none", "is_some_and", "is_empty", "contains_key", "is_absolute"):
                 return "bool"
-            if e[2] == "copied" or e[2] == "cloned":
+            if e[2] in ("copied", "cloned", "clone", "collect", "to_string_lossy", "chain", "iter"):
                 return self.ty(e[1], env)
+            if ("." + e[2]) in self.calls:
+                rt = self.calls["." + e[2]][1]
+                return rt(self.ty(e[1], env)) if callable(rt) else rt
             return None
         if k == "call":
             if e[1][0] == "path":
@@ -114,6 +117,11 @@ class Fn:
                     return m.group(1)
                 if name in self.calls:
                     return self.calls[name][1]
+            return None
+        if k == "tuple":
+            ts = [self.ty(x, env) for x in e[1]]
+            return "(" + ",".join(t or "?" for t in ts) + ")"
+        if k in ("if", "iflet", "match", "block"):
             return None
         if k == "unary":
             return "bool" if e[1] == "!" else self.ty(e[2], env)
@@ -312,14 +320,16 @@ class Fn:
                 if m and len(e[2]) == 1:
                     return self.ex(e[2][0], env)       # widening
                 if name in self.calls:
-                    return "(%s %s)" % (self.calls[name][0], " ".join(paren(self.ex(a, env)) for a in e[2]))
+                    return self.apply(self.calls[name][0], [self.ex(a, env) for a in e[2]])
                 if name in self.paths or f[1][-1] in self.paths:      # enum constructor with arguments
                     return "(%s %s)" % (self.path(f[1], env), " ".join(paren(self.ex(a, env)) for a in e[2]))
             raise Unsupported("call of %s" % (f,))
         if k == "mcall":
             recv, name, args = e[1], e[2], e[3]
-            if name in ("copied", "cloned", "clone", "to_owned", "iter", "as_ref") and not args:
+            if name in ("copied", "cloned", "clone", "to_owned", "iter", "as_ref", "collect", "to_path_buf", "to_string_lossy") and not args:
                 return self.ex(recv, env)
+            if name == "chain" and len(args) == 1:
+                return "(%s ++ %s)" % (self.ex(recv, env), self.ex(args[0], env))
             if name == "len" and not args:
                 return "(lenZ %s)" % self.ex(recv, env)
             if name == "is_empty" and not args:
@@ -345,7 +355,7 @@ class Fn:
                 return "(Z.min (%s + %s) %d)" % (self.ex(recv, env), self.ex(args[0], env), 2 ** WIDTH[t] - 1)
             key = "." + name
             if key in self.calls:
-                return "(%s %s)" % (self.calls[key][0], " ".join(paren(self.ex(a, env)) for a in [recv] + args))
+                return self.apply(self.calls[key][0], [self.ex(a, env) for a in [recv] + args])
             raise Unsupported("method .%s()" % name)
         if k == "macro":
             if e[1] == "matches":
@@ -381,6 +391,13 @@ class Fn:
             given = dict(e[2])
             return "(%s %s)" % (st[0], " ".join(paren(self.ex(given[f], env)) for f in st[1]))
         raise Unsupported("expression kind " + k)
+
+    def apply(self, template, args):
+        if "{" in template:
+            return "(" + template.format(*[paren(a) for a in args]) + ")"
+        if not args:
+            return template
+        return "(%s %s)" % (template, " ".join(paren(a) for a in args))
 
     def ok(self, e, env):
         f = self.spec.get("ok")
@@ -505,15 +522,57 @@ class Fn:
             return "match %s with %s end" % (ss, " ".join(parts))
         return render(0)
 
+    def sorter(self, t):
+        f = self.spec.get("sort", {}).get(t)
+        if not f:
+            raise Unsupported("sort at type %s" % t)
+        return f
+
+    def deduper(self, t):
+        f = self.spec.get("dedup", {}).get(t)
+        if not f:
+            raise Unsupported("dedup at type %s" % t)
+        return f
+
+    def set_place(self, place, val, env):
+        """`let <root> := <root with place replaced by val> in ` for a local or a field of a local record"""
+        if place[0] == "path" and len(place[1]) == 1 and place[1][0] in env:
+            return "let %s := %s in " % (self.var(place[1][0]), val)
+        if place[0] == "field" and place[1][0] == "path" and len(place[1][1]) == 1 and place[1][1][0] in env:
+            v = place[1][1][0]
+            t = env[v]
+            rec = self.spec.get("records", {}).get(t)
+            if not rec:
+                raise Unsupported("update of a field of %s" % t)
+            ctor, fields = rec
+            parts = []
+            for f in fields:
+                if f == place[2]:
+                    parts.append(paren(val))
+                else:
+                    parts.append(paren(self.fields[(t, f)][0].format(self.var(v))))
+            return "let %s := %s %s in " % (self.var(v), ctor, " ".join(parts))
+        raise Unsupported("assignment target")
+
     def assigned(self, block):
         """local variables assigned anywhere in a block (loop state)"""
         out = []
 
+        def root(e):
+            while e[0] == "field":
+                e = e[1]
+            return e[1][0] if e[0] == "path" and len(e[1]) == 1 else None
+
         def walk(n):
             if isinstance(n, tuple):
-                if n and n[0] == "assign" and n[1][0] == "path" and len(n[1][1]) == 1:
-                    if n[1][1][0] not in out:
-                        out.append(n[1][1][0])
+                if n and n[0] == "assign":
+                    v = root(n[1])
+                    if v is not None and v not in out:
+                        out.append(v)
+                if n and n[0] == "expr" and n[1][0] == "mcall" and n[1][2] in MUTATORS:
+                    v = root(n[1][1])
+                    if v is not None and v not in out:
+                        out.append(v)
                 for c in n:
                     walk(c)
             elif isinstance(n, list):
@@ -569,6 +628,29 @@ class Fn:
                     out_env[q[1]] = tx
                 return "".join("let %s := %s in " % l for l in lets) + after(out_env)
             raise Unsupported("let pattern")
+        if k == "assign" and s[1][0] == "field":
+            lhs, op, e = s[1], s[2], s[3]
+            cur = self.ex(lhs, env)
+            if op == "=":
+                val = self.ex(e, env)
+            elif op == "+=" and self.ty(lhs, env) in ("usize", "int"):
+                val = "(%s + %s)" % (cur, self.ex(e, env))
+            else:
+                raise Unsupported("field assignment %s at type %s" % (op, self.ty(lhs, env)))
+            return self.set_place(lhs, val, env) + after(env)
+        if k == "expr" and s[1][0] == "mcall" and s[1][2] in MUTATORS:
+            recv, name, args = s[1][1], s[1][2], s[1][3]
+            cur = self.ex(recv, env)
+            t = self.ty(recv, env)
+            if name == "push" and len(args) == 1:
+                val = "(%s ++ [%s])" % (cur, self.ex(args[0], env))
+            elif name in ("sort", "sort_unstable") and not args:
+                val = "(%s %s)" % (self.sorter(t), cur)
+            elif name == "dedup" and not args:
+                val = "(%s %s)" % (self.deduper(t), cur)
+            else:
+                raise Unsupported("mutating call .%s" % name)
+            return self.set_place(recv, val, env) + after(env)
         if k == "assign":
             lhs, op, e = s[1], s[2], s[3]
             if lhs[0] != "path" or len(lhs[1]) != 1 or lhs[1][0] not in env:
@@ -639,6 +721,9 @@ class Fn:
                 return self.tail(e, env, sub)
             raise Unsupported("expression statement " + e[0])
         raise Unsupported("statement " + k)
+
+
+MUTATORS = ("push", "sort", "sort_unstable", "dedup")
 
 
 class Ctx:
@@ -772,6 +857,23 @@ def functions():
     out.append(("same", rec + " Fingerprint::same", "digest", t_same))
     out.append(("reconcile_path", rec + " reconcile_path", "digest", t_reconcile_path))
 
+    def t_reconcile():
+        src = read(rec)
+        if not re.search(r"pub type FpMap\s*=\s*BTreeMap<PathBuf,\s*Fingerprint>;", src):
+            raise Unsupported("FpMap is no longer BTreeMap<PathBuf, Fingerprint>")
+        spec = dict(fp_spec, signature=[("a", "FpMap"), ("b", "FpMap"), ("base", "FpMap"), ("trust_base", "bool")],
+                    calls={".keys": ("map fst {0}", "Vec<PathBuf>"), ".get": ("al_get cmp {1} {0}", "Option<Fingerprint>"),
+                           "reconcile_path": ("g_reconcile_path", "Action"), "Vec::new": ("[]", "Vec<?>")},
+                    sort={"Vec<PathBuf>": "sort_keys cmp"}, dedup={"Vec<PathBuf>": "dedup_keys cmp"},
+                    eq=dict(fp_spec["eq"], Action="action_eqb"))
+        text = translate_fn(src, "reconcile", None, spec, "g_reconcile", "(a b base : list (K * fingerprint digest)) (trust_base : bool)",
+                            "list (K * action)")
+        return ("Variable K : Type.\nVariable cmp : K -> K -> comparison.\n"
+                "Definition action_eqb (x y : action) : bool :=\n  match x, y with\n  | Noop, Noop | PropagateAtoB, PropagateAtoB | PropagateBtoA, PropagateBtoA"
+                " | ConvergeIdentical, ConvergeIdentical\n  | DeleteA, DeleteA | DeleteB, DeleteB | Conflict BothChanged, Conflict BothChanged\n"
+                "  | Conflict DeleteVsModify, Conflict DeleteVsModify => true\n  | _, _ => false\n  end.\n" + text)
+    out.append(("reconcile", rec + " reconcile", "digest", t_reconcile))
+
     def t_cas():
         src = read("src/bin/copia/wire.rs")
         check_enum(src, "Cas", ["Commit", "Conflict"])
@@ -804,6 +906,32 @@ def functions():
         return translate_fn(src, "glob_match", None, spec, "g_glob_match", "(pat text : list Z)", "bool",
                             env_types={"pat": "Vec<char>", "text": "Vec<char>"})
     out.append(("glob_match", "src/bin/copia/plan.rs glob_match", None, t_glob))
+
+    def t_is_excluded():
+        src = read("src/bin/copia/plan.rs")
+        spec = dict(signature=[("rel", "Path"), ("excludes", "[String]")],
+                    calls={".trim_end_matches": ("trim_end_matches {0} {1}", "String"), ".contains": ("containsZ {0} {1}", "bool"),
+                           "glob_match": ("glob_match", "bool"), ".components": ("components", "Vec<Component>")},
+                    paths={"Component::Normal": "CNormal"})
+        return translate_fn(src, "is_excluded", None, spec, "g_is_excluded", "(rel : list Z) (excludes : list (list Z))", "bool")
+    out.append(("is_excluded", "src/bin/copia/plan.rs is_excluded", None, t_is_excluded))
+
+    def t_build_plan():
+        src = read("src/bin/copia/plan.rs")
+        check_struct(src, "SyncPlan", [("transfer", "Vec<PathBuf>"), ("skipped", "usize"), ("delete", "Vec<PathBuf>")])
+        if not re.search(r"pub type MetaMap\s*=\s*BTreeMap<PathBuf,\s*FileMeta>;", src):
+            raise Unsupported("MetaMap is no longer BTreeMap<PathBuf, FileMeta>")
+        spec = dict(signature=[("src", "MetaMap"), ("dst", "MetaMap"), ("excludes", "[String]"), ("with_delete", "bool")],
+                    records={"SyncPlan": ("Build_sync_plan", ["transfer", "skipped", "delete"])},
+                    fields={("SyncPlan", "transfer"): ("(transfer {0})", "Vec<PathBuf>"), ("SyncPlan", "skipped"): ("(skipped {0})", "usize"),
+                            ("SyncPlan", "delete"): ("(sp_delete {0})", "Vec<PathBuf>")},
+                    calls={"SyncPlan::default": ("(Build_sync_plan [] 0 [])", "SyncPlan"), "is_excluded": ("is_excluded", "bool"),
+                           "needs_transfer": ("needs_transfer", "bool"), ".get": ("mm_get {1} {0}", "Option<FileMeta>"),
+                           ".keys": ("map fst {0}", "Vec<PathBuf>"), ".contains_key": ("mm_mem {1} {0}", "bool")},
+                    sort={"Vec<PathBuf>": "sort_keys path_cmp"})
+        return translate_fn(src, "build_plan", None, spec, "g_build_plan",
+                            "(src dst : metamap) (excludes : list (list Z)) (with_delete : bool)", "sync_plan")
+    out.append(("build_plan", "src/bin/copia/plan.rs build_plan", None, t_build_plan))
 
     def t_from_u8():
         src = read("src/protocol.rs")
@@ -857,9 +985,9 @@ def functions():
 
 GROUPS = {
     # group -> (imports, needs the digest section, [function keys], properties whose models rest on these functions)
-    "Reconcile": ("Model.Reconcile", True, ["same", "reconcile_path"]),
+    "Reconcile": ("Model.Reconcile", True, ["same", "reconcile_path", "reconcile"]),
     "Cas": ("", True, ["cas_decide"]),
-    "Plan": ("Model.Plan", False, ["needs_transfer", "glob_match"]),
+    "Plan": ("Model.Glob Model.Plan", False, ["needs_transfer", "glob_match", "is_excluded", "build_plan"]),
     "Protocol": ("Model.Checksum Model.Delta Model.Protocol", False, ["from_u8", "hvalidate"]),
     "DeltaV": ("Model.Checksum Model.Delta", True, ["delta_validate"]),
     "SafeJoin": ("Model.SafeJoin", False, ["safe_join"]),
